@@ -24,17 +24,21 @@ func (s *Server) processQueryLogsAndStats(dctx *dnsContext) (rc resultCode) {
 	processingTime := time.Since(dctx.startTime)
 
 	ip := pctx.Addr.Addr().AsSlice()
+
+	// Use the real address to find the client, since its settings, such as
+	// ignoring it in the query log and statistics, must be honored even if the
+	// addresses are anonymized before being stored.
+	ids := []string{net.IP(ip).String()}
+	if dctx.clientID != "" {
+		// Use the ClientID first because it has a higher priority.  Filters
+		// have the same priority, see applyAdditionalFiltering.
+		ids = []string{dctx.clientID, ids[0]}
+	}
+
 	s.anonymizer.Load()(ip)
 	ipStr := net.IP(ip).String()
 
 	log.Debug("dnsforward: client ip for stats and querylog: %s", ipStr)
-
-	ids := []string{ipStr}
-	if dctx.clientID != "" {
-		// Use the ClientID first because it has a higher priority.  Filters
-		// have the same priority, see applyAdditionalFiltering.
-		ids = []string{dctx.clientID, ipStr}
-	}
 
 	qt, cl := q.Qtype, q.Qclass
 
